@@ -81,6 +81,16 @@ fn active_filter(it: &InternalValue, seqno: SeqNo) -> (b: bool)
     ;
     f(it)
 }
+fn ephemeral_filter(it: &InternalValue, seqno: &SeqNo) -> (b: bool)
+    ensures b == (it.key.seqno < *seqno)
+{
+    let f =
+//@ FROM src/range.rs :: impl TreeIter :: fn create_range :: CLOSURE 5 `move | item |` :: OBL C02.8
+        move |item/*+*/: &InternalValue/*-*/| /*+*/-> (b: bool) ensures b == (item.key.seqno < *seqno) {/*-*/ seqno_filter(item.key.seqno, *seqno)/*+*/ }/*-*/
+//@ END
+    ;
+    f(it)
+}
 //@ WRAPPER_END
 
 } // verus!
